@@ -31,6 +31,17 @@ RULE = ("(a) end to end through impl.assemble: every branch mnemonic (stub signa
         "the label of its own block; a reference to a local label defined only in the previous block must be refused; "
         "(b4) operand-less .word/.dword/.byte(+.even) between an instruction and its target, mostly without .link: the target label carries a "
         "marker word and the expected address is the position of the marker in the image (model-free); "
+        "(b5) targets NAMED like registers / accumulators: every FP11 mnemonic of the regenerated table (fsrc,ac / ac,fdst / single fdst, and the "
+        "ldexp/stexp/ldc*/stc* forms with an ordinary memory operand) and clr tst jmp tstb inc push pop call mov cmp add movb bis jsr xor mul ash, "
+        "the tested operand in each memory-operand position, written bare, @name, name+-k, @name+-k, the name being an accumulator or register "
+        "name with something appended (ac0sav ac1tmp ac4.old ac5x ac00 ac10 ac2$ / r0x r1sav r2. r10 r77 sp1 spx pcx pc0), a name that only resembles "
+        "one (ac6..ac9 ac acc accum xac0 fac1 ac.0 / r8 r9 r s p xr0 rr1 xsp apc), upper/mixed-case spellings of both and a reference written in "
+        "another case than the definition, and the exact names ac0..ac5 wherever they are ordinary labels (every non-floating position; @acN and "
+        "acN+-k in a floating position); the other memory operand is a register mode, #imm, X(r) or a second such name (a constant); the name is "
+        "defined as a label after / before the instruction, as a constant before / after it, exported by a file linked first / last or by a file "
+        "included before / after; with and without .link.  The same names as targets of every branch mnemonic and sob.  Oracle unchanged: the operand "
+        "is PC-relative (mode 67 / 77, one extension word) and the effective address decoded by the Spec is the definition's address (+-k), judged in "
+        "Coq by Run.C04Run.prop_relative / prop_branch on the abstract operands (ORel / ORelDef of the definition's address); "
         "(c) the stubs' inner functions driven directly through the real Instruction objects: OffsetOperandStub.fn of every branch "
         "mnemonic and sob over a window of targets around rel (quick +-600, thorough +-70000), ImmediateOperandStub.fn over +-600, the "
         "relative-mode lambdas over seeded (target, rel) pairs; compared with Model.Insns.enc_offset / enc_imm / enc_rel and with the Spec. "
@@ -44,10 +55,15 @@ LEVEL_TEXT = ("Coq theorems over unbounded Z about the model of OffsetOperandStu
 LEVEL_NOTE = ("Trusted: Coq kernel, tools/translate.py + tools/gens/gen_insns.py (pins the text of the modelled functions), the sweep "
               "harness (tools/insn_cases.py), Spec/PDP11.v (branch/sob/PC-relative effective-address rules). fixup_label (numeric branch "
               "operands read as local labels) is not modelled; it is exercised end to end (1$ / 1: / 8. spellings). "
+              "The classification of an operand token as register / accumulator / symbol (try_as_register, try_accumulator_from_symbol) is upstream of the "
+              "model: the model takes abstract operands, so stream (b5) ties it end to end -- the harness states that a name other than r0..r7 sp pc / "
+              "bare ac0..ac5 in a floating position is an ordinary symbol (ORel / ORelDef) and Coq judges the emitted words against that; a "
+              "misclassification shows as a shorter instruction with a register-mode field. "
               "Print Assumptions: closed under the global context for every theorem.")
 TECHNIQUE = "Coq proof (lia over Z with Euclidean division) + pinned source shape + exhaustive window correspondence of the real stub functions"
 ASSUME = ["a PDP-11 adds a branch offset / PC-relative displacement to the PC pointing behind the word that holds it (Spec/PDP11.v)"]
-TRUSTED = ["tools/insn_cases.py: printer from abstract operands / targets to source text", "tools/gens/gen_insns.py: source-shape pins of insns.py"]
+TRUSTED = ["tools/insn_cases.py: printer from abstract operands / targets to source text",
+           "tools/props/c04.py named_target_cases: the rule 'only r0..r7 sp pc and bare ac0..ac5 (floating position) are not symbols', restated in the generator", "tools/gens/gen_insns.py: source-shape pins of insns.py"]
 
 REQ = "Spec.PDP11 Run.C01Run Run.C04Run"
 PRE = "Open Scope string_scope.\nOpen Scope Z_scope."
@@ -801,6 +817,158 @@ def bare_directive_cases(intro, brs, sobs, rng, tier):
 
 
 # ------------------------------------------------------------------------------------------------
+# (b5) targets NAMED like registers / accumulators.  Only r0..r7 sp pc are registers and only ac0..ac5 (bare, in a
+# floating-point operand position) are accumulators: every longer, shorter or merely similar name is an ordinary
+# symbol, so the operand is PC-relative and must reach the definition of that name.  Every FP11 mnemonic of the
+# table and the ordinary single/double operand instructions, the tested operand in each memory-operand position.
+NEAR_ACC = ["ac0sav", "ac1tmp", "ac2buf", "ac3ptr", "ac4.old", "ac5x", "ac0x", "ac1.", "ac2$", "ac3_1", "ac00", "ac10", "ac55", "ac4z9",      # acN + more
+            "ac6", "ac7", "ac8", "ac9", "ac", "acc", "accum", "a", "xac0", "fac1", "ac.0", "acx1",                                            # never acN
+            "AC0SAV", "Ac1Tmp", "AC5X", "AC6", "ACCUM", "aC2buf"]
+NEAR_REG = ["r0x", "r1sav", "r2.", "r3$", "r5_", "r7x", "r00", "r07", "r10", "r77", "sp1", "spx", "sp.", "pcx", "pc0", "pc.", "spc", "psp",   # reg + more
+            "r8", "r9", "r", "s", "p", "xr0", "rr1", "xsp", "apc", "r.0",                                                                    # never a register
+            "R0X", "SPX", "PCX", "R8", "Sp1", "pC0"]
+EXACT_ACC = ["ac0", "ac1", "ac2", "ac3", "ac4", "ac5", "AC3", "Ac1", "aC5"]   # ordinary labels except bare in an FP11 position
+NAME_LAYOUTS = ["fwd", "back", "const-before", "const-after", "export-first", "export-last", "include-first", "include-last"]
+NAMED_PLAIN = ["clr", "tst", "jmp", "tstb", "inc", "push", "pop", "call", "mov", "cmp", "add", "movb", "bis", "jsr", "xor", "mul", "ash"]
+
+
+def respell(name, rng):
+    """the reference may be written in another case than the definition (symbol names are case-insensitive)"""
+    x = rng.random()
+    return name if x < 0.7 else (name.upper() if x < 0.8 else (name.lower() if x < 0.9 else name.swapcase()))
+
+
+def named_program(name, layout, link, insn_line, ilen, rng, const_value=None):
+    """one instruction whose operand mentions `name`, and the definition of `name` placed according to `layout`.
+    returns (files, fs, base, image offset of the instruction, total image length, address/value of the name)"""
+    base = 0o1000 if link is None else link
+    head = [".link " + IC.octnum(link)] if link is not None else []
+    k = rng.choice([0, 0, 2, 6])
+    g = rng.choice([2, 4, 10])
+    pad = [".blkb " + IC.num(k)] if k else []
+    fs = None
+    if layout == "fwd":
+        files = [("t.mac", "\n".join(head + pad + [insn_line, ".blkb " + IC.num(g), name + ": .blkb 2"]) + "\n")]
+        off, total, T = k, k + ilen + g + 2, base + k + ilen + g
+    elif layout == "back":
+        files = [("t.mac", "\n".join(head + [name + ": .blkb " + IC.num(g)] + pad + [insn_line]) + "\n")]
+        off, total, T = g + k, g + k + ilen, base
+    elif layout in ("const-before", "const-after"):
+        off, total = k, k + ilen
+        T = const_value(base, off) if const_value else rng.choice([0o100, 0o177776, 0, base, base + off, 0o2002, base + 0o100000, 0o60])
+        df = ["%s = %s" % (name, IC.octnum(T) if rng.random() < 0.5 else IC.num(T))]
+        body = df + pad + [insn_line] if layout == "const-before" else pad + [insn_line] + df
+        files = [("t.mac", "\n".join(head + body) + "\n")]
+    elif layout == "export-first":
+        files = [("a.mac", "\n".join(head + [name + ":: .blkb " + IC.num(g)]) + "\n"), ("b.mac", "\n".join(pad + [insn_line]) + "\n")]
+        off, total, T = g + k, g + k + ilen, base
+    elif layout == "export-last":
+        files = [("a.mac", "\n".join(head + pad + [insn_line]) + "\n"), ("b.mac", "\n".join([".blkb " + IC.num(g), name + ":: .blkb 2"]) + "\n")]
+        off, total, T = k, k + ilen + g + 2, base + k + ilen + g
+    elif layout == "include-first":
+        files = [("t.mac", "\n".join(head + ['.include "lib.mac"'] + pad + [insn_line]) + "\n")]
+        fs = {"lib.mac": name + ":: .blkb " + IC.num(g) + "\n"}
+        off, total, T = g + k, g + k + ilen, base
+    elif layout == "include-last":
+        files = [("t.mac", "\n".join(head + pad + [insn_line, '.include "lib.mac"']) + "\n")]
+        fs = {"lib.mac": ".blkb " + IC.num(g) + "\n" + name + ":: .blkb 2\n"}
+        off, total, T = k, k + ilen + g + 2, base + k + ilen + g
+    else:
+        raise RuntimeError(layout)
+    return files, fs, base, off, total, T
+
+
+def named_target_cases(intro, brs, sobs, rng, tier):
+    by = {n: st for n, _p, st in intro}
+    cases = []
+    RM = ("RegisterModeOperandStub", "FP11RMOperandStub")
+    fp_mn = [n for n, _p, st in intro if any(s[0].startswith("FP11") for s in st)]
+    per_fp, per_plain, per_br = (4, 2, 2) if tier == "quick" else (24, 16, 10)
+    # relative / relative-deferred operands
+    for m in fp_mn + [n for n in NAMED_PLAIN if n in by]:
+        stubs = by[m]
+        cls = [s[0] for s in stubs]
+        if any(c not in RM + ("RegisterOperandStub", "FP11AccumulatorOperandStub") for c in cls):
+            continue
+        for pos in [i for i, c in enumerate(cls) if c in RM]:
+            floating = cls[pos] == "FP11RMOperandStub"
+            for j in range(per_fp if m in fp_mn else per_plain):
+                x = rng.random()
+                # the first case of every floating position is an accumulator name with something appended, written bare
+                pool = NEAR_ACC[:14] if (floating and j == 0) else \
+                       (NEAR_ACC if x < (0.6 if floating else 0.3) else (NEAR_REG if x < (0.85 if floating else 0.7) else EXACT_ACC))
+                name = rng.choice(pool)
+                how = "bare" if (floating and j == 0) else rng.choice(["bare", "bare", "@", "+k", "@+k"])
+                if floating and pool is EXACT_ACC and how == "bare":
+                    how = rng.choice(["@", "+k"])          # bare acN in a floating position IS the accumulator
+                kk = rng.choice([2, -2, 4, 0o100, 1]) if "+k" in how else 0
+                ref = respell(name, rng)
+                text = ("@" if "@" in how else "") + ref + ("" if kk == 0 else ("+" + IC.num(kk) if kk > 0 else "-" + IC.num(-kk)))
+                texts, opsf, defs, nwords = [], [], [], 1
+                for pi, c in enumerate(cls):
+                    if pi == pos:
+                        texts.append(text)
+                        opsf.append(lambda T, c=("ORelDef" if "@" in how else "ORel"), kk=kk: (c, T + kk))
+                        nwords += 1
+                    elif c == "RegisterOperandStub":
+                        r = rng.randrange(8); texts.append(rng.choice(IC.reg_spellings(r, rng, None)[:2])); opsf.append(lambda T, r=r: ("OReg", r))
+                    elif c == "FP11AccumulatorOperandStub":
+                        n = rng.randrange(4); texts.append(rng.choice(["ac%d", "ac%d", "AC%d"]) % n); opsf.append(lambda T, n=n: ("OAcc", n))
+                    else:
+                        # the other memory operand: a register mode, an immediate, an index, or a second near-name relative (a constant)
+                        y = rng.choice(["r", "#", "X", "R2", "R2"])
+                        if y == "r":
+                            r = rng.randrange(6)
+                            md = rng.choice([("OReg", "%s"), ("ORegDef", "(%s)"), ("OAutoInc", "(%s)+"), ("OAutoDec", "-(%s)")])
+                            texts.append(md[1] % IC.REGNAMES[r]); opsf.append(lambda T, md=md, r=r: (md[0], r))
+                        elif y == "#":
+                            v = rng.choice(IC.VAL16[:8]); texts.append("#" + IC.num(v)); opsf.append(lambda T, v=v: ("OImm", v)); nwords += 1
+                        elif y == "X":
+                            v, r = rng.choice(IC.VAL16[:8]), rng.randrange(7)
+                            texts.append("%s(%s)" % (IC.num(v), IC.REGNAMES[r])); opsf.append(lambda T, v=v, r=r: ("OIndex", v, r)); nwords += 1
+                        else:
+                            n2 = rng.choice([q for q in NEAR_REG + NEAR_ACC + EXACT_ACC if q.lower() != name.lower()])
+                            v = rng.choice([0o100, 0o177776, 0, 0o2002])
+                            defs.append("%s = %s" % (n2, IC.octnum(v)))
+                            texts.append(n2); opsf.append(lambda T, v=v: ("ORel", v)); nwords += 1
+                layout = rng.choice(NAME_LAYOUTS)
+                link = rng.choice([None, 0o1000, 0o2000, 0o100000, 0o400])
+                line = m + " " + ", ".join(texts)
+                if defs:     # constant of the second operand: in the file of the instruction, before or after it (no bytes)
+                    line = "\n".join(defs + [line] if rng.random() < 0.5 else [line] + defs)
+                files, fs, base, off, total, T = named_program(name, layout, link, line, 2 * nwords, rng)
+                c = RelCase()
+                c.m, c.ops, c.addr, c.i = m, [f(T) for f in opsf], base + off, pos
+                c.nwords, c.total, c.off, c.lax = nwords, total, off, False
+                c.files, c.fs, c.src = files, fs, files[0][1]
+                c.key = (m, "named:%s:%s:%s:pos%d" % (text, layout, ",".join(x[0] for x in c.ops), pos), c.addr, T + kk, "@" in how,
+                         "nolink" if link is None else "link")
+                cases.append(c)
+    # branches and sob to such names
+    for m in brs + sobs:
+        sob = m in sobs
+        for _ in range(per_br):
+            name = rng.choice(NEAR_ACC + NEAR_REG + EXACT_ACC)
+            kk = rng.choice([0, 0, 0, 2, -2])
+            ref = respell(name, rng)
+            reg = rng.randrange(8) if sob else None
+            text = ref + ("" if kk == 0 else ("+" + IC.num(kk) if kk > 0 else "-" + IC.num(-kk)))
+            line = m + " " + ((rng.choice(IC.reg_spellings(reg, rng, None)[:2]) + ", ") if sob else "") + text
+            layout = rng.choice([x for x in NAME_LAYOUTS if not sob or x in ("back", "const-before", "const-after", "export-first", "include-first")])
+            link = rng.choice([None, 0o1000, 0o2000, 0o100000])
+            d0 = rng.choice([-126, -20, -4, -2, 0] if sob else [-256, -100, -2, 0, 2, 40, 254])
+            files, fs, base, off, total, T = named_program(name, layout, link, line, 2, rng, const_value=lambda b, o, d0=d0, kk=kk: b + o + 2 + d0 - kk)
+            c = BrCase()
+            c.m, c.reg, c.t, c.addr = m, reg, T + kk, base + off
+            c.d = c.t - (c.addr + 2)
+            c.off, c.total, c.lax = off, total, False
+            c.spelling = "named:%s:%s:%s" % (text, layout, "nolink" if link is None else "link")
+            c.files, c.fs, c.src = files, fs, files[0][1]
+            cases.append(c)
+    return cases
+
+
+# ------------------------------------------------------------------------------------------------
 def explore(rep, br, tier, seed):
     rng = random.Random(seed)
     intro = IC.introspect()
@@ -813,6 +981,9 @@ def explore(rep, br, tier, seed):
     lay = layout_cases(intro, brs, sobs, rng, tier) + shadow_cases(intro, brs, sobs, rng, tier)
     loc, negatives = local_scope_cases(brs, sobs, rng, tier)
     lay += loc + bare_directive_cases(intro, brs, sobs, rng, tier)
+    named = named_target_cases(intro, brs, sobs, rng, tier)
+    rep.count("named-target-cases", len(named))
+    lay += named
     check_negatives(rep, negatives)
     bc = branch_cases(brs, sobs, rng, tier) + [c for c in lay if isinstance(c, BrCase)]
     IC.run_cases(bc)
@@ -977,7 +1148,7 @@ def search(rep, br, tier, seed):
 def explore_with(rep, rng, intro, brs, sobs):
     lay = layout_cases(intro, brs, sobs, rng, "thorough") + shadow_cases(intro, brs, sobs, rng, "thorough")
     loc, negatives = local_scope_cases(brs, sobs, rng, "thorough")
-    lay += loc + bare_directive_cases(intro, brs, sobs, rng, "thorough")
+    lay += loc + bare_directive_cases(intro, brs, sobs, rng, "thorough") + named_target_cases(intro, brs, sobs, rng, "thorough")
     check_negatives(rep, negatives)
     bc = branch_cases(brs, sobs, rng, "thorough") + [c for c in lay if isinstance(c, BrCase)]
     IC.run_cases(bc)
